@@ -120,7 +120,8 @@ impl NumericParser {
             return true;
         }
         if *c == ',' {
-            if !self.check_comma() {
+            // digits after the decimal point can not be grouped
+            if self.tmp.has_point() || !self.check_comma() {
                 self.error_state = Error::COMMA;
                 return false;
             }
@@ -134,6 +135,14 @@ impl NumericParser {
             Some(v) => *v,
         };
         if NumericParser::is_small_unit(n) {
+            if self.has_hanging_point {
+                self.error_state = Error::POINT;
+                return false;
+            }
+            if self.has_comma && !self.check_comma() {
+                self.error_state = Error::COMMA;
+                return false;
+            }
             self.tmp.shift_scale(-n);
             if !self.subtotal.add(&mut self.tmp) {
                 return false;
@@ -143,6 +152,14 @@ impl NumericParser {
             self.digit_length = 0;
             self.has_comma = false;
         } else if NumericParser::is_large_unit(n) {
+            if self.has_hanging_point {
+                self.error_state = Error::POINT;
+                return false;
+            }
+            if self.has_comma && !self.check_comma() {
+                self.error_state = Error::COMMA;
+                return false;
+            }
             if !self.subtotal.add(&mut self.tmp) || self.subtotal.is_zero() {
                 return false;
             }
@@ -167,6 +184,11 @@ impl NumericParser {
 
     pub fn done(&mut self) -> bool {
         let ret = self.subtotal.add(&mut self.tmp) && self.total.add(&mut self.subtotal);
+        if !ret {
+            // the digits can not be summed up (e.g. units are out of order),
+            // there is no valid number before a trailing point or comma as well
+            return false;
+        }
         if self.has_hanging_point {
             self.error_state = Error::POINT;
             return false;
